@@ -129,9 +129,9 @@ type c15idRec struct {
 }
 
 type c15walker struct {
-	out  *rec.Out
-	sec  string
-	n    int
+	out *rec.Out
+	sec string
+	n   int
 }
 
 // node dumps one element value (a struct, or a simple value) held by field `field`.
